@@ -584,6 +584,8 @@ func registerMisc() {
 		const secs = 63839761445
 		return Struct{Int{C: 0}, Int{C: secs}, (*Value)(nil)}
 	})
+	// the local time zone is UTC: never read the zone database
+	reg("time.initLocal", func(m *Machine, fr *frame, a []Value) Value { return nil })
 	reg("time.runtimeNano", func(m *Machine, fr *frame, a []Value) Value { return Int{C: 0} })
 	reg("time.Sleep", func(m *Machine, fr *frame, a []Value) Value {
 		m.idle = 0
